@@ -346,3 +346,37 @@ def run(ctx):
                        "%s compares (%s, %s) through a float conversion (%s): integers above 2^53 that round to the same f64 compare as equal, so "
                        "`>` disagrees with `>=` / `=` and equality with a float is not transitive" % (fid.split("::")[-1], la, ra, why), F.bodies[fid].file)
     ctx.floor("C23.7", "entry point x kind pairs", n7, 9)
+
+    # ---- clause 8: narrowing casts of query integers --------------------------------------------------
+    # `v as i32` / `v as u32` wraps silently: an out-of-range temporal component (`month: 4294967297`) lands back in the valid range and
+    # a date is produced for it.  That is integer overflow with a third rule (neither checked nor widen-to-float).  Every narrowing cast
+    # of a signed 64/128-bit value in the evaluator must be bounded by construction (BITS: clamp / rem / division by constants /
+    # widening from narrower types) or dominated by a range test of the same value.
+    from .. import bits as BITS
+    ctx.rule("C23.8", "every narrowing cast of an i64 / i128 value in the evaluator is bounded by construction or range-tested (no silent wrap-around of query integers)")
+    WIDTHS = {"i64": 64, "i128": 128, "i32": 32, "u32": 32, "i16": 16, "u16": 16, "i8": 8, "u8": 8, "u64": 64, "usize": 64, "isize": 64}
+    n8 = 0
+    for i, b in sorted(F.bodies.items()):
+        if not i.startswith("nervusdb_query::evaluator::") or "::tests::" in i:
+            continue
+        k = 0
+        for bi, blk in enumerate(b.blocks):
+            if blk["c"]:
+                continue
+            for st in blk["s"]:
+                if st[0] != "a":
+                    continue
+                rv = st[2]
+                if not (rv[0] == "cast" and rv[1] == "IntToInt" and rv[3] in ("i64", "i128") and rv[4] in WIDTHS and WIDTHS[rv[4]] < WIDTHS[rv[3]]):
+                    continue
+                n8 += 1
+                nb = BITS.bits(b, rv[2], rv[3])
+                fits = nb <= BITS.width(rv[4])
+                l = op_local(rv[2])
+                guarded = narrowing_cast_guarded(b, bi, l) if l is not None else False
+                ctx.instance("C23.8", "%s: %s -> %s at %s:%d — value fits %d signed bits, range-tested=%s" % (i, rv[3], rv[4], b.file, st[3], nb, guarded))
+                ctx.oblige(fits or guarded, "C23.8", "%s:cast(%s->%s)#%d" % (b.root or i, rv[3], rv[4], k),
+                           "a query-supplied %s is narrowed to %s with `as` and no range test: out-of-range values wrap silently into the valid range"
+                           % (rv[3], rv[4]), "%s:%d" % (b.file, st[3]))
+                k += 1
+    ctx.floor("C23.8", "narrowing casts of i64 / i128 in the evaluator", n8, 8)
